@@ -249,6 +249,14 @@ func C01(run *core.Run) {
 				t.Pubkey = other.Pubkey
 				h := sha256.Sum256(tbl.canonical(t.Pubkey, t.CreatedAt, t.Kind, t.Tags, t.Content))
 				t.ID = hex.EncodeToString(h[:])
+			case "id-trunc":
+				if !strings.HasSuffix(ev.ID, "00") {
+					continue // exercised by the dedicated search below
+				}
+				t.ID = strings.TrimRight(ev.ID, "0")
+				if len(t.ID)%2 == 1 {
+					t.ID += "0"
+				}
 			case "offcurve-reid":
 				t.Pubkey = offCurvePubkey()
 				h := sha256.Sum256(tbl.canonical(t.Pubkey, t.CreatedAt, t.Kind, t.Tags, t.Content))
@@ -297,6 +305,10 @@ func C01(run *core.Run) {
 				tags = []mocrelay.Tag{{"t", ""}, {"x"}}
 			case "two-tags":
 				tags = []mocrelay.Tag{{"t", val}, {"p", content}}
+			case "name":
+				tags = []mocrelay.Tag{{val, "v"}, {"t", "x"}}
+			case "name-only":
+				tags = []mocrelay.Tag{{val}}
 			}
 			kind := []int64{1, 0, 5, 30000, 20000, 65535}[r.Intn(6)]
 			ts := []int64{0, 1, 1700000000, 4294967296, 9007199254740993}[r.Intn(5)]
@@ -353,6 +365,34 @@ func C01(run *core.Run) {
 		}(cps[lo:hi], w)
 	}
 	wg.Wait()
+	// an id whose trailing zero bytes are cut off (or that is padded with zero bytes) is another id
+	{
+		found := 0
+		for ts := int64(1700000000); ts < 1700000000+20000 && found < 3; ts++ {
+			ev := conc.SignRaw(authors[int(ts)%len(authors)], ts, 1, nil, "zero tail")
+			if !strings.HasSuffix(ev.ID, "00") {
+				continue
+			}
+			found++
+			for _, alt := range []string{ev.ID[:62], strings.TrimRight(ev.ID, "0"), ev.ID + "00", "00" + ev.ID[:62]} {
+				if len(alt)%2 == 1 {
+					alt += "0"
+				}
+				if alt == ev.ID {
+					continue
+				}
+				t := *ev
+				t.ID = alt
+				run.Add("tampers_checked", 1)
+				if ok, _ := t.Verify(); ok {
+					run.Violate("verify-accepts-tampered:id-trunc", fmt.Sprintf("id %s altered to %s is still reported authentic", ev.ID, alt), map[string]any{"original": ev, "tampered": t})
+				}
+			}
+		}
+		if found == 0 {
+			run.Problem("no event id with a zero tail found in 20000 signatures")
+		}
+	}
 	// verification is a pure function of the event: many sessions verifying large events at the same
 	// moment (the relay verifies on every connection's read loop) must all get the same verdict
 	{
